@@ -8,8 +8,10 @@ const char* const H_NAME = "c05_cond";
 const char* const H_PROPERTY = "C05";
 
 #define MAXFB 8
-static fiber_mutex_t cm;
-static fiber_cond_t cv;
+static fiber_mutex_t* cm_p; /* heap memory with arbitrary previous contents */
+static fiber_cond_t* cv_p;
+#define cm (*cm_p)
+#define cv (*cv_p)
 static int occ, tokens;
 /* ghost counters */
 static int waits_begun, waits_returned, signals_invoked, bcast_cover;
@@ -154,6 +156,8 @@ void h_run(void) {
                strict_mode ? (s_bcast ? "broadcast" : "signal") : "", c.preempt_inv);
   sim_fiber_mode();
   fiber_manager_init(c.threads);
+  cm_p = h_dirty_alloc(sizeof *cm_p);
+  cv_p = h_dirty_alloc(sizeof *cv_p);
   fiber_mutex_init(&cm);
   fiber_cond_init(&cv);
   fiber_t* f[2 * MAXFB];
